@@ -43,6 +43,11 @@ def main() -> int:
                 elif item["kind"] == "match":
                     info = runs.run_match(item["seed"], work, tmp, steps=item.get("steps", 6), focus=item.get("focus", "match"))
                     meta["runs"].append({"id": item["id"], "kind": "match", **info})
+                elif item["kind"] == "routes":
+                    from hv import routes
+
+                    info = routes.write_records(tmp, item)
+                    meta["runs"].append({"id": item["id"], "kind": "routes", **info})
                 elif item["kind"] == "model":
                     rp, tr = runs.run_model_schedule(item["spec"], work, tmp, item["id"])
                     meta["runs"].append({"id": item["id"], "kind": "model", "lines": tr.n, "steps": item["spec"]["steps"]})
